@@ -357,7 +357,7 @@ class Scope:
             privileged, concurrent = self._collect_exceptions()
             if privileged is not None or concurrent is not None:
                 try:
-                    raise privileged or concurrent
+                    raise privileged if privileged is not None else concurrent
                 finally:
                     # a failure referenced by a frame of its own traceback lives - with
                     # all frames that it or our interrupt has unwound - until collected
